@@ -14,6 +14,7 @@
   (`PB.logical_sound`), combined here in `integral_kernel_sound`.
 -/
 import SympdeModel.Model.IntegralMap
+import SympdeModel.Lemmas.IntegralMap
 import SympdeModel.Props.C03
 namespace Sympde.IM
 open E PD PB
@@ -162,6 +163,39 @@ theorem element_sq (S : DRing K) (j : RJac) (axis : Option Nat) (x y : Nat)
 theorem element_endpoint (j : RJac) (a : Nat) (hl : j.l = 1) : element j (some a) = one := by
   simp [element, hl]
 
+/-! ### the element in terms of the mapping itself -/
+
+/-- the Jacobian the model computes for a mapping is the matrix of the logical derivatives of its
+    components (for every mapping given by expressions or left symbolic) -/
+theorem jacobian_is_derivative (S : DRing K) (T : FnTable S) (name : String) (F : List E) (l : Nat) (rj : RJac)
+    (h : rjacOf name F l = .ok rj) (hint : ∀ f ∈ F, IntPow f = true) (hnd : ∀ f ∈ F, NonDeg S f)
+    (i : Nat) (hi : i < F.length) (k : Nat) (hk : k < l) (x y : Nat) :
+    den S (rj.J i k) x y = S.D (lc k) (den S F[i] x y) :=
+  rjacOf_is_jacobian S T name F l rj h hint hnd i hi k hk x y
+
+/-- **surface element of a face of a 2-D patch = length of the derivative of the mapping along the
+    face**: on the face `axis = a` the Gram determinant is `|∂̂_k F|²` with `k = 1 - a` the direction
+    that remains — the restriction of the mapping to the face is a curve parametrised by x̂_k -/
+theorem face2_element_of_mapping (S : DRing K) (T : FnTable S) (name : String) (F0 F1 : E) (rj : RJac)
+    (h : rjacOf name [F0, F1] 2 = .ok rj) (hint : IntPow F0 = true ∧ IntPow F1 = true)
+    (hnd : NonDeg S F0 ∧ NonDeg S F1) (a : Nat) (ha : a < 2) (x y : Nat) :
+    den S (detGram rj (keptCols rj.l (some a))) x y
+      = S.D (lc (1 - a)) (den S F0 x y) ^ 2 + S.D (lc (1 - a)) (den S F1 x y) ^ 2 := by
+  obtain ⟨hp, hl, _⟩ := rjacOf_entries name [F0, F1] 2 rj h
+  have hi : ∀ f ∈ [F0, F1], IntPow f = true := by
+    intro f hf; simp at hf; rcases hf with rfl | rfl
+    · exact hint.1
+    · exact hint.2
+  have hn : ∀ f ∈ [F0, F1], NonDeg S f := by
+    intro f hf; simp at hf; rcases hf with rfl | rfl
+    · exact hnd.1
+    · exact hnd.2
+  rw [detGram_face2 S rj (by simpa using hp) hl a ha x y]
+  have e0 := rjacOf_is_jacobian S T name [F0, F1] 2 rj h hi hn 0 (by simp) (1 - a) (by omega) x y
+  have e1 := rjacOf_is_jacobian S T name [F0, F1] 2 rj h hi hn 1 (by simp) (1 - a) (by omega) x y
+  simp only [List.getElem_cons_zero, List.getElem_cons_succ] at e0 e1
+  rw [e0, e1]
+
 /-! ### regions, kernels, patches -/
 
 /-- the transformed integral lives on the same face (axis and side) of the logical patch, and its
@@ -208,5 +242,12 @@ theorem integral_kernel_sound (SL SP : DRing K) (T : FnTable SL) (m : String) (j
     (hf : Frag j.d κs κv body = true) (hn : NonDeg SP body) (h : logical m j F body = .ok lb) (x y : Nat) :
     den SL (mul [lb, element rj axis]) x y = den SP body x y * den SL (element rj axis) x y := by
   rw [den_mul2, logical_sound SL SP T m j F κs κv R body lb hf hn h x y]
+
+/-- **surface mappings**: the transformed integrand (coordinates replaced by the mapping components)
+    has the value of the integrand at the image point, for every derivative-free integrand -/
+theorem surface_integrand_sound (SL SP : DRing K) (p : Nat) (hp : p ≤ 3) (F : Nat → E) (R : SurfRel SL SP p F)
+    (e r : E) (hf : SFrag e = true) (h : substCoords p F e = .ok r) (x y : Nat) :
+    den SL r x y = den SP e x y :=
+  substCoords_sound SL SP p hp F R e hf r h x y
 
 end Sympde.IM
